@@ -198,6 +198,42 @@ func tamperOps() []tamperOp {
 		nb.Header.ProposedHeader.Time = c.w.Now().Unix() + 121 + int64(c.r.Intn(100000))
 		return nb
 	}})
+	// extreme timestamps (arithmetic on them must not wrap into the window)
+	for _, ex := range []struct {
+		n string
+		v int64
+	}{{"max-int64", 1<<63 - 1}, {"near-max-int64", 1<<63 - 1 - 62135596800 + 5}, {"min-int64", -1 << 63}, {"zero", 0}, {"negative", -1000}, {"max-int32-overflow", 1 << 32}} {
+		ex := ex
+		ops = append(ops, tamperOp{name: "Time/extreme-" + ex.n, prop: true, f: func(c *tamperCtx) *types.Block {
+			nb := cloneBlock(c.b)
+			nb.Header.ProposedHeader.Time = ex.v
+			if ex.n == "max-int32-overflow" {
+				nb.Header.ProposedHeader.Time = c.w.Now().Unix() + ex.v
+			}
+			return nb
+		}})
+	}
+	ops = append(ops, tamperOp{name: "Time/equal-to-parent", prop: true, f: func(c *tamperCtx) *types.Block {
+		nb := cloneBlock(c.b)
+		nb.Header.ProposedHeader.Time = c.victim.Head().Time()
+		return nb
+	}})
+	// a header that carries BOTH variants: the honest one plus a junk one of the other kind
+	// (only height and parent correct)
+	ops = append(ops, tamperOp{name: "Header/empty-plus-junk-proposed", empty: true, f: func(c *tamperCtx) *types.Block {
+		nb := cloneBlock(c.b)
+		e := nb.Header.EmptyBlockHeader
+		nb.Header.ProposedHeader = &types.ProposedHeader{ParentHash: e.ParentHash, Height: e.Height, Time: e.Time, ProposerPubKey: c.w.God.Pub,
+			Root: common.Hash{2}, IdentityRoot: common.Hash{3}, TxHash: common.Hash{7}, TxBloom: []byte{255}, IpfsHash: []byte{1, 2, 3}, BlockSeed: types.Seed{4},
+			FeePerGas: big.NewInt(12345), SeedProof: []byte{5}, TxReceiptsCid: []byte{9}, Flags: types.Snapshot}
+		return nb
+	}})
+	ops = append(ops, tamperOp{name: "Header/proposed-plus-junk-empty", prop: true, f: func(c *tamperCtx) *types.Block {
+		nb := cloneBlock(c.b)
+		p := nb.Header.ProposedHeader
+		nb.Header.EmptyBlockHeader = &types.EmptyBlockHeader{ParentHash: p.ParentHash, Height: p.Height, Time: p.Time, Root: common.Hash{2}, IdentityRoot: common.Hash{3}, BlockSeed: types.Seed{4}}
+		return nb
+	}})
 	ops = append(ops, tamperOp{name: "Time/empty-changed", empty: true, f: func(c *tamperCtx) *types.Block {
 		nb := cloneBlock(c.b)
 		nb.Header.EmptyBlockHeader.Time += int64(c.r.Range(1, 50))
@@ -327,6 +363,7 @@ func TestVerifC03(t *testing.T) {
 		s.Hostile, s.MaxTxs, s.EmptyPct = 10, 7, 20
 		r := verifutil.NewRng(seed, 33)
 		lastOfKind := map[bool]*types.Block{}
+		everOnline := map[common.Address]bool{}
 		for i := 0; i < steps; i++ {
 			rep.Progress("C03 scenario %d seed %d step %d", sc, seed, i)
 			doTamper := i%every == 0
@@ -340,6 +377,7 @@ func TestVerifC03(t *testing.T) {
 					kind = "empty"
 				}
 				ctx := &tamperCtx{w: w, r: r, b: b, other: lastOfKind[b.IsEmpty()], victim: victim}
+				origBytes, _ := b.ToBytes()
 				before := snapVictim(victim)
 				list := ops
 				for _, op := range list {
@@ -350,7 +388,7 @@ func TestVerifC03(t *testing.T) {
 					if nb == nil {
 						continue
 					}
-					if nb.Hash() == b.Hash() && string(nb.Body.ToBytes()) == string(b.Body.ToBytes()) {
+					if eb, _ := nb.ToBytes(); string(eb) == string(origBytes) {
 						rep.Count("noop_operators_skipped", 1)
 						continue // e.g. nil -> empty byte string: indistinguishable on the wire
 					}
@@ -369,6 +407,15 @@ func TestVerifC03(t *testing.T) {
 							tryTampered(rep, w, victim, &before, b, nb, "Proposer/offline-identity", kind)
 						}
 					}
+					// an identity that the LEDGER says is not validated any more (killed / failed) but that
+					// was a validator before: the node's cached validator view must not keep it eligible
+					if dead := w.pickActor(r, func(a *Actor, id stateIdentity) bool {
+						return everOnline[a.Addr] && !id.State.NewbieOrBetter() && a != w.God && !victim.AppState.IdentityState.IsOnline(a.Addr)
+					}); dead != nil {
+						if nb := proposeAs(w, victim, dead); nb != nil {
+							tryTampered(rep, w, victim, &before, b, nb, "Proposer/formerly-online-now-not-validated", kind)
+						}
+					}
 				}
 				rep.Count("blocks_tampered:"+kind, 1)
 			}
@@ -383,6 +430,11 @@ func TestVerifC03(t *testing.T) {
 				break
 			}
 			lastOfKind[res.Block.IsEmpty()] = res.Block
+			for _, a := range w.SortedActors() {
+				if w.View().AppState.ValidatorsCache.IsOnlineIdentity(a.Addr) {
+					everOnline[a.Addr] = true
+				}
+			}
 		}
 		flushCounters(rep, w, s)
 		w.Cleanup()
